@@ -31,23 +31,23 @@ func (c *verifConn) Write(p []byte) (int, error) {
 	c.msgs = append(c.msgs, append([]byte(nil), p...))
 	return len(p), nil
 }
-func (c *verifConn) Close() error                { c.closed++; return nil }
-func (c *verifConn) RemoteAddr() net.Addr        { return &net.TCPAddr{IP: net.IPv4(10, 0, 0, 1), Port: 1234} }
+func (c *verifConn) Close() error                    { c.closed++; return nil }
+func (c *verifConn) RemoteAddr() net.Addr            { return &net.TCPAddr{IP: net.IPv4(10, 0, 0, 1), Port: 1234} }
 func (c *verifConn) SetReadDeadline(time.Time) error { return nil }
 func (c *verifConn) Read(p []byte) (int, error)      { return 0, io.EOF } // the client is gone
 
 func verifSession(fc *verifConn) *Session {
 	s := &Session{
-		svr:      &Server{},
-		lsession: "SESS1",
-		conn:     buffered.NewConn(fc),
-		mode:     UnknownSession,
+		svr:       &Server{},
+		lsession:  "SESS1",
+		conn:      buffered.NewConn(fc),
+		mode:      UnknownSession,
 		transport: RTPTransport{Mode: PlaySession, Type: RTPUnknownTrans},
-		authMode: auth.NoneAuth,
-		nonce:    "nonce",
-		status:   statusInit,
-		stream:   defaultStream,
-		consumer: defaultConsumer,
+		authMode:  auth.NoneAuth,
+		nonce:     "nonce",
+		status:    statusInit,
+		stream:    defaultStream,
+		consumer:  defaultConsumer,
 	}
 	for i := rtpChannelMin; i < rtpChannelCount; i++ {
 		s.transport.Channels[i] = -1
@@ -106,8 +106,8 @@ type verifRef struct {
 	controls  bool // DESCRIBE or ANNOUNCE succeeded
 	ttype     RTPTransportType
 	tmode     SessionMode // transport mode of the last accepted SETUP (sticky when a later SETUP omits mode=)
-	playing   bool // consumer attached
-	published bool // stream registered
+	playing   bool        // consumer attached
+	published bool        // stream registered
 	closed    bool
 }
 
